@@ -630,7 +630,15 @@ fn c08_shaped(k: u64, rng: &Rng) -> File {
     for v in &vars {
         if rng.chance(1, 2) {
             let l = b.var(v);
-            let r = match rng.below(6) {
+            let r = match rng.below(8) {
+                6 | 7 => {
+                    // a member call whose member name is spelled like something else (`concat`, `encode`, `pack`, `length`)
+                    let recv = b.var(rng.ps(&["Packer", "p_init", "helperLib"]));
+                    let m = b.member(recv, rng.ps(&["concat", "encode", "pack", "join", "toUint"]));
+                    let x = b.var("p_init");
+                    let y = b.num("1");
+                    b.call(m, vec![x, y])
+                }
                 0 => b.num("7"),
                 1 => b.msg_sender(),
                 2 => b.var("p_init"),
@@ -670,6 +678,44 @@ fn c08_shaped(k: u64, rng: &Rng) -> File {
         }
         let mut stmts: Vec<St> = vec![];
         let targets: Vec<String> = vars.iter().cloned().chain(f.params.iter().flatten().filter_map(|p| p.name.clone())).collect();
+        // reads that merely look like writes: a parameter or a state variable as the index / key of an assigned element of
+        // something else, and a field spelled like a state variable
+        if rng.chance(1, 2) && !targets.is_empty() {
+            let tname = rng.pick(&targets).clone();
+            let e = match rng.below(4) {
+                0 => {
+                    let reg = b.var("registry_");
+                    let key = b.var(&tname);
+                    let lhs = b.ex(E::Index(Box::new(reg), Some(Box::new(key))));
+                    let r = b.msg_sender();
+                    b.bin(BinOp::Assign, lhs, r)
+                }
+                1 => {
+                    let reg = b.var("totals_");
+                    let key0 = b.var(&tname);
+                    let z = b.num("0");
+                    let key = b.ex(E::Index(Box::new(key0), Some(Box::new(z))));
+                    let lhs = b.ex(E::Index(Box::new(reg), Some(Box::new(key))));
+                    let r = b.num("7");
+                    b.bin(BinOp::AssignAdd, lhs, r)
+                }
+                2 => {
+                    let holder = b.var("holder_");
+                    let lhs = b.member(holder, &tname);
+                    let r = b.num("5");
+                    b.bin(BinOp::Assign, lhs, r)
+                }
+                _ => {
+                    let pts = b.var("points_");
+                    let i = b.num("2");
+                    let el = b.ex(E::Index(Box::new(pts), Some(Box::new(i))));
+                    let lhs = b.member(el, &tname);
+                    let r = b.num("9");
+                    b.bin(BinOp::Assign, lhs, r)
+                }
+            };
+            stmts.push(b.st(S::Expr(e)));
+        }
         for _ in 0..rng.range(1, 4) {
             if targets.is_empty() {
                 break;
@@ -990,7 +1036,9 @@ fn c09_file(version: &str, spelling: usize, placement: usize, body_kind: usize, 
         }
         let id = b.ids.next();
         let t = b.ty("uint256");
-        parts.push(Part::Using(id, vec!["SafeMath".into()], false, Some(t), false));
+        // the library may be named through a path (`using Libs.SafeMath for uint256;`)
+        let lib = if rng.chance(1, 5) { rng.ps(&["Libs.SafeMath", "math.SafeMath", "a.b.SafeMath"]).to_string() } else { "SafeMath".to_string() };
+        parts.push(Part::Using(id, vec![lib], false, Some(t), false));
     }
     let mut f = b.func(FnKind::Function, true, false);
     let mut stmts: Vec<St> = vec![];
@@ -1016,7 +1064,16 @@ fn c09_file(version: &str, spelling: usize, placement: usize, body_kind: usize, 
             let r = b.var("require");
             let c0 = b.small_expr(0);
             let lit = b.ex(E::Str(vec![s.to_string()]));
-            let args = if rng.chance(1, 6) { vec![lit, c0] } else { vec![c0, lit] };
+            // the literal as last of two arguments (usual), first of two (not a message), alone, or last of three
+            let args = match rng.below(12) {
+                0 | 1 => vec![lit, c0],
+                2 => vec![lit],
+                3 => {
+                    let mid = b.num("7");
+                    vec![c0, mid, lit]
+                }
+                _ => vec![c0, lit],
+            };
             let call = b.call(r, args);
             stmts.push(b.st(S::Expr(call)));
         }
@@ -1039,8 +1096,35 @@ fn c09_file(version: &str, spelling: usize, placement: usize, body_kind: usize, 
     rng.shuffle(&mut stmts);
     f.body = Some(b.st(S::Block { unchecked: false, stmts }));
     parts.push(Part::Func(f));
+    // where the directive stands does not matter: in front of the calling function (as built), behind it, in a
+    // later contract of the file, or (file level) behind the contract
+    let where_using = rng.below(4);
+    let mut later: Option<Contract> = None;
+    if body_kind == 0 && where_using >= 2 {
+        if let Some(pos) = parts.iter().rposition(|p| matches!(p, Part::Using(..))) {
+            let u = parts.remove(pos);
+            if where_using == 2 {
+                parts.push(u);
+            } else {
+                let mut l = b.contract();
+                l.kind = "contract";
+                l.bases.clear();
+                l.parts = vec![u];
+                later = Some(l);
+            }
+        }
+    }
     c.parts = parts;
     items.push(Item::Contract(c));
+    if let Some(l) = later {
+        items.push(Item::Contract(l));
+    }
+    if body_kind == 1 && where_using == 3 {
+        if let Some(pos) = items.iter().position(|i| matches!(i, Item::Part(Part::Using(..)))) {
+            let u = items.remove(pos);
+            items.push(u);
+        }
+    }
     if placement == 4 {
         items.push(abi(&mut b));
     }
